@@ -132,6 +132,13 @@ def rule_rearm_always(ctx, res):
     res.check(okt, 'TABLE', tb.path, 'the TableRefresh timer token leads to the next refresh round')
 
 
+def _strip_refs(t):
+    t = strip_transparent(t)
+    while isinstance(t, tuple) and t and t[0] in ('ref', 'deref'):
+        t = strip_transparent(t[1])
+    return t
+
+
 def rule_refresh_round(ctx, res):
     """C11: whom a round contacts and that each contacted node is marked"""
     b, s = sym_of(ctx, res, CONT)
@@ -146,6 +153,59 @@ def rule_refresh_round(ctx, res):
                 pls.add(tuple((x[0],) + ((x[1],) if len(x) > 1 else ()) for x in pl))
     ok = len(pls) >= 1
     why = ''
+    if not pls:
+        # the same selection written as a loop: `for n in closest_nodes(..) { if !(questionable && !recent) { continue } v.push(*n.handle()); if v.len() == N { break } }`
+        lvs = set()
+        for p in s.paths:
+            for e in p.effects:
+                if e[0] == 'call' and e[1] and e[1].split('::')[-1] == 'push':
+                    r = lib.root_of(strip_transparent(e[2][0]))
+                    if isinstance(r, tuple) and r and r[0] == 'loopvar':
+                        lvs.add(r)
+        for lv in lvs:
+            try:
+                st = lib.loop_stream(s, lv)
+            except Lost:
+                continue
+            if not find_calls(st['src'], 'closest_nodes'):
+                continue
+            ok = True
+            src = strip_transparent(st['src'])
+            tgt = strip_transparent(src[2][1]) if src[0] == 'call' and src[1] == 'table::RoutingTable::closest_nodes' else None
+            if not (tgt and tgt[0] == 'call' and tgt[1] == 'info_hash::InfoHash::flip_bit' and find_calls(tgt, 'RoutingTable::node_id')):
+                ok = False
+                why = 'source is not closest_nodes(own_id.flip_bit(cursor))'
+            cap = st['cap']
+            if not (cap is not None and term_int(cap) == 4 and strip_transparent(cap)[2] == 'action::refresh::REFRESH_CONCURRENCY'):
+                ok = False
+                why = 'the loop is not cut off at REFRESH_CONCURRENCY entries'
+            is_elem = st['is_elem']
+
+            def classify_l(lit, c):
+                sa = status_atom(ctx, lit, lambda call: is_elem(_strip_refs(call[2][0])))
+                if sa is not None:
+                    return ('S', sa)
+                rel, a, b2, truth = lit
+                if rel == 'bool' and isinstance(a, tuple) and a[0] == 'call' and a[1] == 'node::Node::recently_requested_from' and truth is not None:
+                    return ('R', truth)
+                raise Lost('refresh candidate loop: unrecognised condition %s %s' % (rel, fmt(a)))
+
+            class _Row:
+                def __init__(self, conds):
+                    self.conds = conds
+            try:
+                rows = []
+                for lits, pushed, pp in st['rows']:
+                    good_push = pushed is not None and bool(find_calls(pushed, 'Node::handle')) and is_elem(_strip_refs(find_calls(pushed, 'Node::handle')[0][2][0]))
+                    rows.extend(lib.Table.build([_Row(lits)], classify_l, lambda _p, g=good_push, pu=pushed: (True if g else False if pu is None else 'push-other')).rows)
+                badl, nl_ = lib.Table(rows).compare({'S': list(STATUS), 'R': BOOL}, lambda v: v['S'] == 'Questionable' and not v['R'])
+                if badl:
+                    ok = False
+                    why = '; '.join('%s -> got %s want %s' % x for x in badl[:2])
+            except Lost as e:
+                ok = False
+                why = str(e)
+            break
     for pl in pls:
         names = [x[0] for x in pl]
         nf = names.count('filter')
